@@ -8,6 +8,7 @@ CONSTANTS
   MaxCfg = 2
   MaxParse = 2
   Family = "c11"
+  Reconfigure = TRUE
   Emit = TRUE
 INVARIANTS
   Inv_ExpectIff
